@@ -685,7 +685,9 @@ func c47(r *vkit.Run) {
 	}
 	vkit.Parallel(len(cases), 12, func(i int) { run(cases[i]) })
 	env := &c47Env{r: r, wsB: wsB, stB: stB, dialClient: dialClient, controlRoundTrip: controlRoundTrip}
+	bpStart := time.Now()
 	vkit.Parallel(len(bpCases), 12, func(i int) { env.runBP(bpCases[i]) })
+	r.Count("bp_family_wall_ms", time.Since(bpStart).Milliseconds())
 
 	bmu.Lock()
 	_ = seenB
